@@ -15,6 +15,9 @@ EXTRA_CLASSES = [
 ]
 
 
+EVENT_PREFIXES = ("B ", "D ", "T ", "A ", "P ")
+
+
 def pclass(msg):
     msg = msg.strip()
     if msg == "-":
@@ -50,7 +53,9 @@ def parse(text):
             ended = True
             cur = None
             continue
-        if cur is None:
+        if cur is None or ln[:2] not in EVENT_PREFIXES:
+            # not a line of the unit protocol (e.g. the collector's "GC Warning: Repeated allocation of very large
+            # block" on stderr): kept aside, never compared
             junk.append(ln)
             continue
         if ln.startswith("P "):
